@@ -4,6 +4,7 @@
 import N2V.Lemmas.Parse
 import N2V.Lemmas.EvalSpec
 import N2V.Lemmas.StmtSpec
+import N2V.Lemmas.FileSpec
 import N2V.Model.Load
 namespace N2V.C10
 open N2V N2V.Scanner N2V.Eval N2V.Parse N2V.Load
@@ -170,5 +171,30 @@ theorem blank_and_comment_lines_skipped (buf : Array UInt8) (body x : Bytes)
 
 /-- Non-vacuity: ` o: cc a | b || c` / `  x = 1` meets the well-formedness hypothesis. -/
 example : BuildWF exBuild [NL] := exBuild_wf
+
+/-! ### File level -/
+
+/-- **The manifest file is read into exactly the declared statements, in order** (byte level, whole
+    file, no `include`/`subninja`).  If the text of the main manifest is a sequence of written
+    statements - top-level bindings, `rule` and `pool` blocks, `build` statements with all their
+    sections, `default` - each preceded by any number of blank lines and `#` comments, followed by
+    trailing blank lines / comments (`Load.FileWF`: every statement meets the well-formedness its
+    byte-level theorem asks for, in front of the text that follows it), then `load::read` returns
+    exactly the fold of the statements' effects over the loader (`Load.applyItems`): rules and
+    pools registered under their names, bindings evaluated top-down in the scope as of that line,
+    every `build` statement added by `Graph::add_build` with its paths in the declared roles and
+    order, `default` targets resolved - starting from the loader that knows only the manifest's own
+    name.  (`lns`: the line numbers the `build` statements record; errors of `add_build` / of path
+    evaluation propagate as in the loop.) -/
+theorem manifest_read_as_written (inclExtends : Bool) (fs : Load.Fs) (main c content : Bytes)
+    (hne : main.isEmpty = false) (hc : Canon.canon main = .ok c) (hfs : fs c = some content)
+    (segs : List Load.FSeg) (tailNoise : List Load.Noise) (htn : ∀ n ∈ tailNoise, n.WF)
+    (hwf : Load.FileWF segs (Load.noiseBytes tailNoise [NUL]))
+    (htext : content ++ [NUL] = Load.fileBytes segs (Load.noiseBytes tailNoise [NUL])) :
+    ∃ lns : List Nat, lns.length = segs.length ∧
+      Load.loadWith inclExtends fs main =
+        (Load.applyItems c (List.zipWith (fun (sg : Load.FSeg) ln => sg.2.item ln) segs lns)
+          { graph := { files := [⟨c, none, []⟩] } } []).map (·.1) :=
+  Load.load_as_written inclExtends fs main c content hne hc hfs segs tailNoise htn hwf htext
 
 end N2V.C10
